@@ -269,7 +269,7 @@ func (fr *Frame) evalClause2(cl *Clause, st *State, oldSt *State, results []Val,
 				}
 			}
 		}
-		preferCell := cl.Kind == "invariant"
+		preferCell := cl.Kind == "invariant" && !old
 		if !preferCell {
 			for _, p := range fr.fn.Params {
 				if p.Pos() == pos {
@@ -446,8 +446,11 @@ func (vc *VC) ensureSpecDef(fn *ssa.Function, name string, heaps []string) {
 		vc.Uninterp(name, as, vc.resultSort(fn))
 		return
 	}
-	if isUninterpretedSpec(fn) || vc.L.Opaque[originName(fn)] {
+	if isUninterpretedSpec(fn) || vc.L.Opaque[originName(fn)] || vc.opaqueHere(originName(fn)) {
 		var as []Sort
+		for _, h := range heaps {
+			as = append(as, vc.heapSorts[h])
+		}
 		for _, p := range fn.Params {
 			as = append(as, vc.specialSort(p.Type()))
 		}
@@ -475,6 +478,19 @@ func (vc *VC) ensureSpecDef(fn *ssa.Function, name string, heaps []string) {
 	res, _ := root.evalPure(fn, args, st, nil)
 	body := vc.popScope(res.T)
 	g.Body = body.S
+}
+
+// opaqueHere: the contract under verification hides this definition (`opt opaque f g h`).
+func (vc *VC) opaqueHere(name string) bool {
+	if vc.ct == nil {
+		return false
+	}
+	for _, n := range strings.Fields(vc.ct.Opts["opaque"]) {
+		if n == name {
+			return true
+		}
+	}
+	return false
 }
 
 // isUninterpretedSpec: spec functions whose body is `panic("uninterpreted")`.
